@@ -10,9 +10,9 @@ COMMON = dict(members=['_queue_size', '_k', '_head', '_tail', '_queue'],
               subst=[(r'\bmarked_idx (\w+)\(([^;]*)\);', r'marked_idx \1 = MI_make(\2);', 'mi_ctor'),
                      (r'\b(const )?marked_value (\w+)\(([^;]*)\);', r'\1marked_value \2 = MV_make(\3);', 'mv_ctor'),
                      (r'\btraits::', 'TR_', 'traits'), (r'\butils::random\(\)', 'xv_random()', 'random'),
-                     (r'find_index<true>\((.*?), idx, old_value\)', r'kbq_find_index_E(self, \1, &idx, &old_value)', 'find_index_call'),
-                     (r'find_index<false>\((.*?), idx, old_value\)', r'kbq_find_index_N(self, \1, &idx, &old_value)', 'find_index_call')],
-              self_calls={'queue_full': 'kbq_queue_full', 'segment_empty': 'kbq_segment_empty', 'committed': 'kbq_committed',
+                     (r'find_index<true>\((.*?), idx, old_value\)', r'CALL_find_index_E(self, \1, &idx, &old_value)', 'find_index_call'),
+                     (r'find_index<false>\((.*?), idx, old_value\)', r'CALL_find_index_N(self, \1, &idx, &old_value)', 'find_index_call')],
+              self_calls={'queue_full': 'CALL_queue_full', 'segment_empty': 'CALL_segment_empty', 'committed': 'CALL_committed',
                           'in_valid_region': 'kbq_in_valid_region', 'not_in_valid_region': 'kbq_not_in_valid_region'})
 def src(id, sig, c_sig, **kw):
     d = dict(COMMON); d.update(id=id, file=F, sig=sig, c_sig=c_sig)
@@ -62,6 +62,36 @@ UNIT = dict(
     src('do_pop', r'auto ' + CLS + r'do_pop\(SuccessFunc successFunc, EmptyFunc emptyFunc\)', 'static _Bool kbq_do_pop(struct kbq* self, value_type* result_p)',
         calls={'successFunc': 'XV_SUCCESSFUNC', 'emptyFunc': 'XV_EMPTYFUNC'},
         must_fire={'A_LOAD': 4, 'A_CAS': 3, 'subst:find_index_call': 1, 'call:successFunc': 1, 'call:emptyFunc': 1, 'subst:mi_ctor': 2, 'subst:mv_ctor': 1}),
+    src('ctor', CLS + r'kirsch_bounded_kfifo_queue\(uint64_t k, uint64_t num_segments\)', 'static void kbq_ctor(struct kbq* self, uint64_t k, uint64_t num_segments)', ctor=True,
+        subst=[(r'\bmarked_idx::val_mask\b', 'val_mask', 'val_mask')],
+        post_subst=[(r'new entry\[([^\]]*)\]\(\)', r'XV_NEW_ENTRIES(self, \1)', 'new_entries'),
+                    (r'self->_queue\.reset\((XV_NEW_ENTRIES\([^;]*\))\);', r'XV_INIT__queue(self, \1); if (xv_threw) { XV_RET; }', 'queue_reset'),
+                    (r'(XV_INIT__queue\(self, XV_NEW_ENTRIES\([^;]*\)\);)(?! if \(xv_threw\))', r'\1 if (xv_threw) { XV_RET; }', 'new_may_throw')],
+        must_fire={'ctor_init': 5, 'subst:new_entries': 1}),
+    src('dtor', CLS + r'~kirsch_bounded_kfifo_queue\(\)', 'static void kbq_dtor(struct kbq* self)', must_fire={'A_LOAD': 1, 'subst:traits': 1, 'method:get': 1}),
   ],
-  runs=[], obligations={}, canaries=[],
+  runs=[
+    dict(id='ctor', entry='h_ctor', cls='unbounded', note='all 64-bit k >= 1, num_segments >= 1, v, mark'),
+    dict(id='in_valid', entry='h_in_valid', cls='unbounded'),
+    dict(id='not_in_valid', entry='h_not_in_valid', cls='unbounded'),
+  ] + [dict(id='find_index_%s_k%d' % (v, K), entry='h_find_index_' + v, cls='shape-complete', tiers=['quick', 'thorough'] if K <= 8 else ['thorough'],
+            defs={'KMAX': K, 'KLO': K, 'SMAX': 4, 'SMASK': '10u' if K > 4 else '30u'}, unwindset=['kbq_find_index_%s.0:%d' % (v, K + 1)],
+            note='k = %d, segments in %s' % (K, '{1,3}' if K > 4 else '{1,2,3,4}')) for K in range(1, 17) for v in 'EN'] + [
+    dict(id='push', entry='h_push', cls='shape-complete', unwind=10, unwindset=['kbq_try_push.0:4', 'kbq_find_index_E.0:4', 'kbq_segment_empty.0:4'], note='k in 1..3, segments in 1..3'),
+    dict(id='push_null', entry='h_push_null', cls='shape-complete', unwind=10),
+    dict(id='pop', entry='h_pop', cls='shape-complete', unwind=10, unwindset=['kbq_do_pop.0:5', 'kbq_find_index_N.0:4'], note='k in 1..3, segments in 1..3'),
+    dict(id='init', entry='h_init', cls='shape-complete', unwind=10),
+    dict(id='dtor', entry='h_dtor', cls='shape-complete', unwind=10),
+  ],
+  obligations={
+    'kbq.idx.roundtrip': dict(deciding=True, text='for every (k, num_segments) the constructor accepts and every v < k*num_segments: marked_idx(v, m).get() == v, .mark() == m mod 2^(64-bits), and tag+1 gives a different word'),
+    'kbq.ctor.size': dict(deciding=True, text='an accepted constructor call has _queue_size == k*num_segments without wrap-around (>= 1)'),
+    'kbq.ctor.state': dict(deciding=True, text='an accepted constructor call leaves _k == k, head == tail == (index 0, tag 0) and one value-initialised array of _queue_size entries'),
+    'kbq.in_valid.spec': dict(deciding=True, text='in_valid_region(tail_old, tail, head) <=> tail_old lies in the circular interval (head, tail]'),
+    'kbq.not_in_valid.spec': dict(deciding=True, text='not_in_valid_region(tail_old, tail, head) <=> tail_old lies outside the circular interval [head, tail]'),
+    'kbq.find_index.covers': dict(deciding=True, text='for every random start the probes of find_index are pairwise distinct slots of [start, start+k) mod size, and all k of them are probed before false is returned'),
+    'kbq.find_index.result': dict(deciding=True, text='find_index returns true with the index and the value of a matching slot of the segment, false only if no slot of the segment matches'),
+  },
+  canaries=['ctor.rejected', 'ctor.large_index', 'ctor.accepted', 'ctor.one_by_one', 'in_valid.wrap_true', 'in_valid.wrap_false', 'in_valid.nowrap_true',
+            'not_in_valid.wrap_outside', 'not_in_valid.wrap_inside', 'not_in_valid.nowrap_outside', 'find_index.found', 'find_index.found_last', 'find_index.none'],
 )
